@@ -825,6 +825,7 @@ class StreamEngine(Engine):
     shrink_order = ("faults", "cfg")
     no_delete = ("cfg",)
     selftest_runs = 120
+    replay_repeat_max = 4
     known_sigs: frozenset[str] = frozenset()
 
     def prepare(self, tier: str, seed: int) -> None:
